@@ -4,6 +4,7 @@ EXTENDS Refinement, TLC, Json, IOUtils
 TraceLog == ndJsonDeserialize(IOEnv.TRACE_FILE)
 Judge(L) ==
   IF ~L.finite THEN "non_finite_prediction"
+  ELSE IF L.what = "below" THEN (IF ~WithinCaps(L.errs, RegionOf(L.xq)) THEN "request_below_the_lowest_node_is_answered" ELSE "ok")
   ELSE IF L.what = "tiny" THEN (IF ~WithinCaps(L.errs, RegionOf(L.xq)) THEN "grids_disagree_at_very_small_x" ELSE "ok")
   ELSE IF L.what = "listing" THEN (IF ~WithinCaps(L.errs, RegionOf(L.xq)) THEN "prediction_depends_on_the_order_the_nodes_are_listed_in" ELSE "ok")
   ELSE IF L.what = "node" THEN (IF ~WithinCaps(L.errs, RegionOf(L.xq)) THEN "prediction_jumps_at_a_grid_node" ELSE "ok")
